@@ -296,6 +296,9 @@ Proof.
   destruct (Hs p (or_introl eq_refl)) as [f [[] _]].
 Qed.
 
+Lemma violates_monotone_nil : forall cs, monotone (violates cs) /\ violates cs [] = false.
+Proof. intros cs. split. apply violates_monotone. apply violates_nil. Qed.
+
 (* a fact that matches no atom of any constraint is involved in no conflict *)
 Lemma unmatched_irrelevant : forall cs f S,
   (forall c p, In c cs -> In p c -> match_pat p f [] = None) ->
